@@ -7,6 +7,12 @@ letter case; uses-graphs arbitrary):
   the rule by which `AstAnnotator::handle_class` sets them — the table is published
   (`doc_info.symbol_table`) BEFORE the parent is resolved, so a class that is reached again
   while it is being analysed hands out its unfinished table;
+* files WITHOUT class / module header (`ClassDecl.header = false`): found under their file name like
+  any class, with their own uses list, declarations and bodies; `handle_class` never runs for them, so
+  their table has no owner, no parent and no `self`; what ends the recursion when such a file reaches
+  itself through its uses is the same published table (`get_symbol_table_for_uri_def_only` hands out
+  the table on the document info whoever owns it); they are no entities of the class tree (a node
+  exists only if a class names the file as parent) and hierarchy requests on them end at `get_class()`;
 * the lock structure of a lookup (`get_symbol_info` & co. in `symbol_table.rs`): the caller
   holds the table's mutex, the lookup locks the parent table and recurses while holding it;
   `std::sync::Mutex` is not re-entrant, so meeting a table that is already held never returns;
